@@ -25,11 +25,12 @@ def variant_of(plan):
 class Run:
     def __init__(self, plan, feats=(), name="base", workers=3, mutators=2, heap=24, programs=10,
                  ops=150, sems="0,0,0,0,1,2,6", opts="", extra=(), known_key=None, seed_off=0,
-                 release=False):
+                 release=False, variant_bits=0):
         self.plan, self.feats, self.name = plan, tuple(sorted(feats)), name
         self.workers, self.mutators, self.heap = workers, mutators, heap
         self.programs, self.ops, self.sems, self.opts = programs, ops, sems, opts
         self.extra, self.known_key, self.seed_off, self.release = list(extra), known_key, seed_off, release
+        self.variant_bits = variant_bits
         if plan == "NoGC":
             # nothing is ever reclaimed: the model keeps every object, keep the runs short
             self.heap = 3000
@@ -46,7 +47,7 @@ class Run:
         return "%s-%s-%s" % (self.plan, "+".join(self.feats) or "default", self.name)
 
     def argv(self, exe, out):
-        a = [exe, "--plan", self.plan, "--variant", str(variant_of(self.plan)), "--heap",
+        a = [exe, "--plan", self.plan, "--variant", str(variant_of(self.plan) | self.variant_bits), "--heap",
              str(self.heap), "--workers", str(self.workers), "--mutators", str(self.mutators),
              "--programs", str(self.programs), "--ops", str(self.ops), "--sems", self.sems,
              "--out", out]
@@ -86,6 +87,18 @@ def matrix(tier, focus="general"):
                             opts="immix_stress_defrag=true"))
         runs.append(Run("StickyImmix", feats=["sticky_immix_non_moving_nursery"], name="sxnm",
                         programs=20, seed_off=16))
+    if focus == "vo":
+        # C07/C08: valid-object bit builds only, with lookup probes after every forced collection
+        runs = [r for r in runs if "vo_bit" in r.feats]
+        for r in runs:
+            r.extra += ["--probes"]
+        if tier != "quick":
+            for p in PLANS:
+                runs.append(Run(p, feats=["vo_bit", "object_pinning"], name="vopin", programs=20,
+                                seed_off=21, extra=["--probes"]))
+                runs.append(Run(p, feats=["vo_bit"], name="vorel", programs=25, seed_off=22,
+                                release=True, extra=["--probes"]))
+        return runs
     if focus != "general":
         return runs
     # recorded defects (registered under C01): exercised on purpose, reported as KNOWN-FINDING
@@ -95,6 +108,50 @@ def matrix(tier, focus="general"):
                     known_key="Compressor+Immortal/NonMoving-referrer"))
     runs.append(Run("ConcurrentImmix", name="nonmoving-probe", sems="0,0,6,6", programs=8,
                     known_key="ConcurrentImmix+NonMoving"))
+    return runs
+
+
+def grid_matrix(tier):
+    """C03: the allocation argument grid, fresh and used heap."""
+    runs = []
+    for p in PLANS:
+        heap = 96
+        runs.append(Run(p, name="grid", heap=heap, programs=2, ops=120, extra=["--mode", "grid"]))
+        if tier != "quick":
+            runs.append(Run(p, name="grid-rel", heap=heap, programs=6, ops=200, release=True,
+                            extra=["--mode", "grid"], seed_off=3))
+            runs.append(Run(p, name="grid-small", heap=40, programs=6, ops=200, workers=1,
+                            extra=["--mode", "grid"], seed_off=4))
+            runs.append(Run(p, name="grid-a4096", heap=160, programs=3, ops=150, variant_bits=2,
+                            extra=["--mode", "grid"], seed_off=5))
+            runs.append(Run(p, feats=["immortal_as_nonmoving"], name="grid-nmimm", heap=heap,
+                            programs=3, extra=["--mode", "grid"], seed_off=6))
+    # recorded defect: MarkSweep Default request whose padded size exceeds the largest size class
+    runs.append(Run("MarkSweep", name="grid-padprobe", heap=96, programs=0, sems="0",
+                    extra=["--mode", "grid", "--padprobe"], known_key="MarkSweep:padded-size-exceeds-largest-class"))
+    return runs
+
+
+def cycle_matrix(tier):
+    """C09: allocate / drop / collect cycles."""
+    runs = []
+    for p in PLANS:
+        if p == "NoGC":
+            continue
+        if tier == "quick":
+            runs.append(Run(p, name="cycles", heap=16, sems="0,0,0,2,6",
+                            extra=["--mode", "cycles", "--cycles", "16"]))
+        else:
+            runs.append(Run(p, name="cycles", heap=16, sems="0,0,0,2,6",
+                            extra=["--mode", "cycles", "--cycles", "300"]))
+            runs.append(Run(p, name="cycles-big", heap=64, sems="0,0,2", workers=8, seed_off=1,
+                            extra=["--mode", "cycles", "--cycles", "80"]))
+            runs.append(Run(p, name="cycles-rel", heap=24, sems="0,0,0,2,6", release=True, seed_off=2,
+                            extra=["--mode", "cycles", "--cycles", "400"]))
+            runs.append(Run(p, feats=["immortal_as_nonmoving"], name="cycles-nmimm", heap=16,
+                            sems="0,0,2", seed_off=3, extra=["--mode", "cycles", "--cycles", "100"]))
+            runs.append(Run(p, feats=["immix_smaller_block"], name="cycles-sb", heap=16,
+                            sems="0,0,2", seed_off=4, extra=["--mode", "cycles", "--cycles", "100"]))
     return runs
 
 
